@@ -114,6 +114,7 @@ type world struct {
 type wdtag struct {
 	Sym, Tag, Of, To string
 	FB               bool
+	NoFact           bool // the tag exists at the source but is not a digest tag (no dtag fact)
 }
 
 func (w *world) sameRepo() bool { return w.sc.Pair == "samerepo" }
@@ -214,7 +215,8 @@ func newWorld(sc *scenario, scratch string) (*world, error) {
 			fb.Edges = append(fb.Edges, edge{C: r.Name, Role: "entry"})
 		}
 		w.addNode(fb)
-		w.dtags = append(w.dtags, wdtag{Sym: "fb:" + n.Name, Tag: fbTag, Of: n.Name, To: fb.Name, FB: true})
+		// (only a fall-back tag that carries the whole digest is a digest tag of n: not for sha512)
+		w.dtags = append(w.dtags, wdtag{Sym: "fb:" + n.Name, Tag: fbTag, Of: n.Name, To: fb.Name, FB: true, NoFact: len(n.hexd()) > 64})
 	}
 	// the image a stale target tag points at
 	old := newShape("old")
